@@ -347,3 +347,269 @@ func flowCase(r *rand.Rand) c16In {
 	}
 	return c16In{Family: "flow", Roots: roots, HTML: emitHTML(nil, roots)}
 }
+
+// ---------------------------------------------------------------------------------------------
+// Paged documents with position:fixed boxes (see model.go, "Paged documents")
+// ---------------------------------------------------------------------------------------------
+
+// the seven competitors of the paged grid
+const nGridModes = 7
+
+func applyGridMode(n *Node, m int) {
+	switch m {
+	case 0:
+	case 1:
+		n.Pos, n.L, n.T = "relative", 5, 5
+	case 2:
+		n.Pos, n.L, n.T, n.Z = "relative", 5, 5, ip(-1)
+	case 3:
+		n.Pos, n.L, n.T, n.Z = "relative", 5, 5, ip(0)
+	case 4:
+		n.Pos, n.L, n.T, n.Z = "relative", 5, 5, ip(1)
+	case 5:
+		n.Pos, n.L, n.T, n.ML, n.MT = "absolute", 15, 12, 0, 0
+	case 6:
+		n.Op = 0.5
+	}
+}
+
+var gridZ = [4]*int{nil, ip(0), ip(1), ip(-1)}
+
+const pagedGridN = 3 * 2 * 4 * 4 * nGridModes // 672
+
+// pagedGridCase: three pages, each a plain block (forced break before the second and third) holding
+// one competitor box - the same placement on the three pages, out of static / relative z-index
+// auto, -1, 0, 1 / absolute / opacity - plus two fixed boxes overlapping the competitors: F declared
+// on any of the three pages, before or after the competitor of that page, z-index auto/0/1/-1, and G
+// declared after the competitor of the first or last page, z-index auto or 1.  Every assignment.
+func pagedGridCase(i int) c16In {
+	kF := i % 3
+	i /= 3
+	before := i%2 == 0
+	i /= 2
+	zF := gridZ[i%4]
+	i /= 4
+	kG := []int{0, 2}[i%2]
+	i /= 2
+	zG := []*int{nil, ip(1)}[i%2]
+	i /= 2
+	mode := i % nGridModes
+	f := &Node{ID: 7, Disp: "block", Pos: "fixed", L: 30, T: 20, W: 100, H: 50, Bd: 3, Z: zF, Text: "XXXX"}
+	g := &Node{ID: 8, Disp: "block", Pos: "fixed", L: 50, T: 35, W: 100, H: 50, Bd: 3, Ol: 2, Z: zG, Text: "XXX"}
+	var roots []*Node
+	for p := 0; p < 3; p++ {
+		s := &Node{ID: p + 1, Disp: "block", W: 200, H: 100, Bd: 2, BB: p > 0}
+		c := &Node{ID: p + 4, Disp: "block", W: 120, H: 50, Bd: 3, ML: 15, MT: 10, Text: "XXXXX"}
+		applyGridMode(c, mode)
+		if kF == p && before {
+			s.Kids = append(s.Kids, f)
+		}
+		s.Kids = append(s.Kids, c)
+		if kF == p && !before {
+			s.Kids = append(s.Kids, f)
+		}
+		if kG == p {
+			s.Kids = append(s.Kids, g)
+		}
+		roots = append(roots, s)
+	}
+	return c16In{Family: "pagedgrid", Roots: roots, HTML: emitHTML(nil, roots)}
+}
+
+// pagedCase: the random trees of randomCase with position:fixed as a fourth positioning scheme (at
+// least one fixed box per document), spread over one to three pages by forced breaks before
+// top-level in-flow blocks.
+func pagedCase(r *rand.Rand, o genOpts) c16In {
+	npages := pick(r, 1, 2, 2, 2, 3, 3)
+	n := 4 + r.Intn(8)
+	forced := 1 + r.Intn(n)
+	var roots []*Node
+	type slot struct {
+		n     *Node
+		depth int
+	}
+	var all []slot
+	for id := 1; id <= n; id++ {
+		nd := &Node{ID: id, Disp: "block"}
+		switch x := r.Intn(100); {
+		case x < 62:
+		case x < 82:
+			nd.Disp = "iblock"
+		default:
+			if o.inline {
+				nd.Disp = "inline"
+			}
+		}
+		switch x := r.Intn(100); {
+		case x < 38:
+		case x < 62:
+			nd.Pos = "relative"
+			nd.L, nd.T = 5*(r.Intn(7)-3), 5*(r.Intn(7)-3)
+		case x < 78:
+			nd.Pos = "absolute"
+			nd.L, nd.T = 5*r.Intn(17), 5*r.Intn(17)
+		default:
+			nd.Pos = "fixed"
+		}
+		if id == forced {
+			nd.Pos = "fixed"
+		}
+		if nd.Pos == "fixed" {
+			nd.L, nd.T = 5*r.Intn(17), 5*r.Intn(13)
+		}
+		if nd.Pos != "" && r.Intn(100) < 62 {
+			nd.Z = ip(pick(r, -2, -1, -1, 0, 0, 1, 1, 2))
+		}
+		if !nd.abs() && r.Intn(100) < 18 {
+			nd.Flt = pick(r, "left", "left", "right")
+		}
+		if o.effects && nd.Disp != "inline" {
+			if r.Intn(100) < 12 {
+				nd.Op = pick(r, 0.25, 0.5, 0.75)
+			}
+			if r.Intn(100) < 10 {
+				nd.Tr = &Tr{TX: float64(5 * (r.Intn(9) - 4)), TY: float64(5 * (r.Intn(9) - 4)), SX: pick(r, 1, 1, 0.5, 1.5, 2), SY: pick(r, 1, 1, 0.5, 1.5)}
+			}
+			if r.Intn(100) < 12 {
+				nd.Ov = true
+			}
+		} else if o.effects && r.Intn(100) < 10 {
+			nd.Op = pick(r, 0.25, 0.5, 0.75)
+		}
+		if nd.Pos == "" && r.Intn(100) < 20 {
+			nd.Z = ip(pick(r, -1, 1, 2))
+		}
+		nd.W = 10 * (5 + r.Intn(9))
+		nd.H = 10 * (3 + r.Intn(5))
+		nd.ML = 5 * (r.Intn(15) - 4)
+		nd.MT = 5 * (r.Intn(11) - 9)
+		nd.Bd = pick(r, 0, 2, 2, 3, 4)
+		nd.Ol = pick(r, 0, 0, 0, 2, 3)
+		nd.Pad = pick(r, 0, 0, 5)
+		if r.Intn(100) < 80 {
+			nd.Text = strings.Repeat("X", 1+r.Intn(5))
+		}
+		if nd.fixed() {
+			nd.ML, nd.MT = 0, 0
+		}
+		if nd.Disp == "inline" && !nd.abs() {
+			nd.W, nd.H, nd.MT, nd.Pad = 0, 0, 0, pick(r, 0, 2)
+			if nd.ML < 0 {
+				nd.ML = 0
+			}
+			if nd.Text == "" {
+				nd.Text = "XX"
+			}
+		}
+		var parent *slot
+		if len(all) > 0 && r.Intn(100) < 50 {
+			cands := all[:0:0]
+			for _, s := range all {
+				if s.depth < 3 {
+					cands = append(cands, s)
+				}
+			}
+			if len(cands) > 0 {
+				parent = &cands[r.Intn(len(cands))]
+			}
+		}
+		if parent == nil {
+			roots = append(roots, nd)
+			all = append(all, slot{nd, 1})
+			continue
+		}
+		if parent.n.Disp == "inline" && nd.Disp == "block" {
+			nd.Disp = "iblock"
+		}
+		parent.n.Kids = append(parent.n.Kids, nd)
+		all = append(all, slot{nd, parent.depth + 1})
+	}
+	// forced page breaks before top-level blocks in normal flow (break-before applies to those only),
+	// and only where the page already holds in-flow content: a forced break at the top of a page
+	// that holds nothing but out-of-flow boxes is not honoured (pagination is not C16's business)
+	remaining, inflow := npages-1, false
+	for _, rt := range roots {
+		in := !rt.abs() && rt.Flt == ""
+		if in && rt.Disp == "block" && inflow && remaining > 0 && r.Intn(100) < 60 {
+			rt.BB = true
+			remaining--
+		}
+		inflow = inflow || in
+		if rt.BB {
+			inflow = true
+		}
+	}
+	multi := pageCount(roots) > 1
+	sanitizePaged(roots, multi)
+	sanitize(roots)
+	sanitizePaged(roots, multi) // again: sanitize turns floated spans into real inline boxes
+	var body *Node
+	if !multi {
+		switch r.Intn(12) {
+		case 0:
+			body = &Node{Pos: "relative"}
+		case 1:
+			body = &Node{Pos: "relative", Z: ip(pick(r, -1, 0, 1))}
+		case 2:
+			if o.effects {
+				body = &Node{Op: 0.5}
+			}
+		}
+	}
+	return c16In{Family: "paged", Body: body, Roots: roots, HTML: emitHTML(body, roots)}
+}
+
+// sanitizePaged keeps out of the paged documents what the specifications do not settle for a fixed
+// box (see notes/C16.md):
+//   - every document: the ancestors of a fixed box are neither overflow:hidden nor transformed (the
+//     containing block of a fixed box is the page, so an ancestor's overflow does not clip it - CSS 2.1
+//     11.1.1 - and a transformed ancestor would become its containing block - CSS Transforms 1);
+//   - documents of several pages: the ancestors of an outermost fixed box form no stacking context
+//     and no opacity group (no opacity, no z-index on positioned ancestors): how the group / stacking
+//     context of an ancestor that is laid out on one page extends to the copies of the fixed box on
+//     the other pages is specified nowhere.  Inside a fixed sub-tree (repeated as a whole) anything goes.
+//
+// and what the tree gets wrong (open findings F5 and F6, witnesses findings/C16/fixed-*.json), in
+// documents of several pages only: absolutely positioned ancestors of a fixed box become relatively
+// positioned (F5: the fixed box is not repeated), spans whose last child holds a fixed box lose
+// their border / padding (F6: the fixed box is repeated twice).  C16_ALLOW=F5,F6 (development only)
+// re-enables them.
+func sanitizePaged(roots []*Node, multi bool) {
+	walk(roots, func(n *Node, anc []*Node) {
+		// open finding F6 (second route): the last child of an inline box with a right border /
+		// padding is laid out twice and a fixed box inside it is registered twice, so it is painted
+		// twice on the other pages; such spans lose their border and padding
+		if multi && !allowed("F6") && n.disp() == "inline" && (n.Bd > 0 || n.Pad > 0) && len(n.Kids) > 0 {
+			var fx []*Node
+			for _, c := range n.Kids[len(n.Kids)-1].Kids {
+				collectFixed(c, &fx)
+			}
+			if len(fx) > 0 {
+				n.Bd, n.Pad = 0, 0
+			}
+		}
+		if !n.fixed() {
+			return
+		}
+		outer := true
+		for _, a := range anc {
+			if a.fixed() {
+				outer = false
+			}
+		}
+		for _, a := range anc {
+			a.Ov, a.Tr = false, nil
+			if multi && outer {
+				a.Op = 0
+				if a.positioned() {
+					a.Z = nil
+				}
+				if a.Pos == "absolute" && !allowed("F5") {
+					// open finding F5: a fixed box inside an absolutely positioned box is not repeated
+					a.Pos = "relative"
+					a.L, a.T = a.L%20, a.T%20
+				}
+			}
+		}
+	})
+}
